@@ -21,6 +21,36 @@ def fn_hashes(src, report):
     return out
 
 
+def callers_of_new_functions(src, report, failures, res):
+    """[(failing function, new uncontracted callee)] - new = absent from the committed function-hash baseline"""
+    import rlex
+    known = load_json(FNHASH_FILE, {})
+    if not known:
+        return []
+    new = [f for f in report.get("assume_default", []) if f not in known]
+    if not new:
+        return []
+    names = {f.split("::")[-1]: f for f in new}
+    failing = set()
+    for f in failures:
+        b = f.get("body")
+        if b is not None and b.get("kind") == "body":
+            failing.add(b["fn"])
+    failing -= set(d["fn"] for d in res.demoted)
+    if not failing:
+        return []
+    toks, items = rlex.parse_crate(src)
+    out = []
+    for it in rlex.walk(items):
+        if it.kind == "fn" and it.path in failing and it.body_open is not None:
+            tt = rlex.token_texts(src[it.body_open:it.end])
+            for i, t in enumerate(tt[:-1]):
+                if t in names and tt[i + 1] == "(" and names[t] != it.path:
+                    out.append((it.path, names[t]))
+                    break
+    return out
+
+
 def load_json(path, default):
     if os.path.exists(path):
         return json.load(open(path))
@@ -96,6 +126,10 @@ def run_verus_part(res, cfg, src, report_extra, modules=None, prefix=""):
         if not fid["ok"]:
             raise ToolError("fidelity check failed: " + fid["error"])
         marks = out.marks
+        if not prefix and attempt == 0:
+            # known before Verus runs, so that the fallbacks for changed functions still run when Verus rejects the unit wholesale
+            res.fn_hashes = fn_hashes(src, report)
+            res.changed_fns = set(fn for fn, h in res.fn_hashes.items() if fn in load_json(FNHASH_FILE, {}) and load_json(FNHASH_FILE, {})[fn] != h)
         for la in report.get("lost_anchor", []):
             if la["fn"] not in [d["fn"] for d in res.demoted]:
                 res.demoted.append(la)
@@ -114,6 +148,20 @@ def run_verus_part(res, cfg, src, report_extra, modules=None, prefix=""):
         failures, front, notes = verus.classify(diags, marks, js)
         ice = "thread 'rustc'" in stderr and "panicked" in stderr
         if not front and not ice:
+            # A failing function that calls a NEW function without contract (e.g. code moved into a helper): a modular proof cannot follow
+            # the call, so the failure says nothing about the code. Demote the caller (contract kept); its fallbacks decide.
+            moved = callers_of_new_functions(src, report, failures, res)
+            if moved and attempt < 5:
+                for fn, callee in moved:
+                    fs = unit.fns.get(fn)
+                    if fs is None:
+                        continue
+                    fs.mode = "assume"
+                    fs.loops = {}; fs.proofs = []; fs.assume_pre = []; fs.assume_inv = []
+                    res.demoted.append({"fn": fn, "reason": "calls the new function %s, which has no contract (a modular proof cannot follow the call)" % callee})
+                for f in unit.fns.values():
+                    f.used = False
+                continue
             break
         # Functions whose body left the fragment Verus reads (iterator adapters, closures, ...): demote them to
         # ASSUME (contract kept, body dropped) so that everything else is still decided; their own obligations are undecided.
@@ -131,6 +179,10 @@ def run_verus_part(res, cfg, src, report_extra, modules=None, prefix=""):
                     culprits.append(fn)
             if ice and culprits:
                 front = [{"message": "Verus internal error while translating this function: " + (re.findall(r"panicked at [^\n]*\n([^\n]*)", stderr) or ["?"])[0], "rendered": "", "body": {"fn": c}} for c in culprits]
+            elif culprits:
+                # a front-end error located outside every function body (e.g. at a call site whose callee's signature changed)
+                first = (front[0]["message"] if front else "front-end error").split("\n")[0]
+                front = front + [{"message": "Verus front end rejected the unit after this function's text changed: " + first, "rendered": "", "body": {"fn": c}} for c in culprits]
         if not culprits or attempt == 5:
             if ice:
                 raise ToolError("Verus crashed (internal error) and no changed function could be isolated:\n" + stderr[:600])
